@@ -610,6 +610,33 @@ def export_path(ctx, extended, specv):
     return stats, len(cases)
 
 
+# one small function per enumerated construct, run first on every check (runnable: deterministic)
+CORPUS = [
+    "f() { cat 3<<<payload <&3; }", "f() { cat 0<in; echo a 1>o1 2>o2; echo b 1>>o1 2>>o2; cat o1; }",
+    "f() { echo a 5>o1 6>>o2 7<>o3 8>|o4 9<in; }", "f() { echo a 2>&1 1>&2 >&2; echo b 4>&1 >&4; }",
+    "f() { echo a 3>&- 4<&-; cat <in 5<&0 <&5; }", "f() { echo a &>o1; echo b &>>o1; cat o1; }",
+    "f() { { echo a; echo b >&3; } 3>o1 >o2 2>&1; cat o1 o2; }", "f() ( echo sub 4>o1 >&4 ) 5<in",
+    "f() { for v in a b; do echo $v; done 3>o1 >&3; cat o1; } 6<in", "f() { while read l; do echo $l; done 7<in <&7; }",
+    "f() { if true; then echo t; fi 8>o1 1>&8; cat o1; }", "f() { case $1 in a) echo A ;;& *) echo S ;& z) echo Z ;; esac 9>o1; }",
+    "f() { g() { echo in; } 3>o1; g; } 4<<<w", "function f { echo kw; }", "function f() { echo kw2; } 2>&1", "function f () ( echo kw3 )",
+    "f() { arr=(1 2 [5]=x); arr+=(y); arr[1]+=v; arr[0]=w; echo \"${arr[@]}\" \"${!arr[@]}\"; }",
+    "f() { declare -A m=([k]=v [j]=w); m[k]+=z; echo \"${m[k]}\" \"${m[j]}\"; x=a; x+=s; echo $x; }",
+    "f() { ! true; echo $?; ! false | cat; echo $?; }", "f() { for ((i=0; i<2; i++)); do echo $i; done; for (( ; ; )); do break; done; }",
+    "f() { for ((i=0, j=3; i<j; i++, j--)); do echo $i$j; done 3>o1; (( x = 1 << 2 )); echo $x; }",
+    "f() { [[ $1 == a* && -n $2 ]] && echo m; [[ b > a || ! -f in ]] && echo n; [[ $1 =~ ^a+$ ]]; echo $?; [[ 3 -lt 5 ]] && echo lt; }",
+    "f() { [[ ! ( $1 == 7 && -e in ) ]] && echo p; [[ $1 != a?c ]] && echo q; [[ -v x ]]; echo $?; [[ in -ef in ]] && echo same; }",
+    "f() { for v; do echo $v; done; for v in; do echo never; done; }", "f() { until false; do echo u; break; done; while false; do :; done; echo w; }",
+    "f() { echo a | cat | tr a b; true && echo y || echo n; false || echo z; }", "f() { v=1 w=2 echo $v; x=7 env | grep -c '^x=7'; }",
+    "f() { echo $(echo sub) `echo bq` ${1:-d} \"q r\" 's t' a\\ b $'t\\tu'; }", "f() { if false; then echo 1; elif true; then echo 2; else echo 3; fi; }",
+    "f() { 2>&1 echo first; >o1 3<in echo second; cat o1; }", "f() { cat 4<<<\"$1 w\" <&4; cat <<<plain; }",
+]
+CORPUS_NORUN = [
+    "f() { time true; time -p false; time ! true; time -p ! false | cat; }", "f() { coproc cat; }", "f() { coproc CP { cat; }; }",
+    "f() { echo a & echo b & wait; }", "f() { cat <(echo ps) > >(cat); }", "f() { echo a 0>&- 1<&- 2>&-; echo b <&- >&-; }",
+    "f() { echo x 0<>o1 1<>o2; echo y 3<&2 4>&0 5<&1; }",
+]
+
+
 def code_round_trip(ctx, extended, specv):
     """A. the code itself on the full grammar (needs no model)"""
     rng = ctx.rng
@@ -617,7 +644,7 @@ def code_round_trip(ctx, extended, specv):
     n_full = 1500 if ctx.quick else 12000
     if extended:
         n_full *= 4
-    progs = []
+    progs = [(s, "f a b", frozenset(["corpus"])) for s in CORPUS] + [(s, "", frozenset(["corpus"])) for s in CORPUS_NORUN]
     for i in range(n_full):
         runnable = i % 3 != 2
         g = Gen(rng, plain=(i % 4 == 3), size=rng.choice([3, 8, 20]), clean=(i % 2 == 0), runnable=runnable)
@@ -806,6 +833,7 @@ def run(ctx, extended=False):
     if xbad or xbad2:
         raise core.CheckBroken("extracted runner and vm_compute disagree (case %r)" % ((mcases[xbad[0]] if xbad else tstr[xbad2[0]]),))
 
+    specv.sort(key=lambda v: (1 if v.get("known") else 0, len(str(v["input"].get("source", v["input"])))))
     return {
         "evaluations": len(progs) + len(mcases) + len(tstr) + export_n,
         "distinct_nontrivial": len({s for s, _, f in progs if f}) + len({s for s, f in msrc if f}),
